@@ -40,6 +40,20 @@ Theorem C33_sortedset_partial : forall A (ltb eqb : A -> A -> bool), total_order
 Proof. intros A ltb eqb [H1 [H2 [H3 H4]]] ops s HI Hok. apply run_ok_all; assumption. Qed.
 Print Assumptions C33_sortedset_partial.
 
+(* the set and a copy of it (copy(), or intersection()/difference()/union() without arguments): after ANY sequence of
+   operations on either of them both stay strictly sorted, the operated one follows `spec`, and the OTHER ONE IS UNCHANGED
+   (a copy is an independent set with the same members) *)
+Theorem C33_sortedset_copy_independent : forall A (ltb eqb : A -> A -> bool), total_order ltb eqb ->
+  forall ops st, Inv A ltb (fst st) -> Inv A ltb (snd st) -> Forall (op2_ok A) ops -> run2_ok A ltb eqb st ops.
+Proof. intros A ltb eqb [H1 [H2 [H3 H4]]] ops st Hs Hc Hok. apply run2_ok_all; assumption. Qed.
+Print Assumptions C33_sortedset_copy_independent.
+
+(* != is the negation of == for every operand kind *)
+Theorem C33_sortedset_ne_is_not_eq : forall A (ltb eqb : A -> A -> bool) s o,
+  set_ne A ltb eqb s o = negb (set_eq A ltb eqb s o).
+Proof. intros. apply set_ne_negb. Qed.
+Print Assumptions C33_sortedset_ne_is_not_eq.
+
 Theorem C33_sortedset_invariant : forall A (ltb eqb : A -> A -> bool), total_order ltb eqb ->
   forall ops, Forall (op_ok A) ops ->
   StronglySorted (fun x y => ltb x y = true) (SortedSet.final A ltb eqb [] ops) /\ NoDup (SortedSet.final A ltb eqb [] ops).
@@ -126,6 +140,12 @@ Example C33_nonvacuous_set :
   map snd (SortedSet.run Z z_ltb z_eqb [] [OAdd 5; OAdd 2; OAdd 9; OAdd 5; OContains 2; ORemove 5; OPop; OIter;
                                   OUnion [SSet [7; 1]; PSet [2; 3]]; OIsSubset (PSet [2; 4])]) =
   [RNone; RNone; RNone; RNone; RBool true; RNone; RElem 9; RItems [2]; RItems [1; 2; 3; 7]; RBool true].
+Proof. reflexivity. Qed.
+
+Example C33_nonvacuous_copy :
+  map (fun x => fst x) (run2 Z z_ltb z_eqb ([], []) [OMain (OUpdate [3; 1]); OCopy ByCopy; OOnCopy (OAdd 2); OMain (ORemove 3);
+                                                      OMain (ONe (PSet [1; 2]))]) =
+  [([1; 3], []); ([1; 3], [1; 3]); ([1; 3], [1; 2; 3]); ([1], [1; 2; 3]); ([1], [1; 2; 3])].
 Proof. reflexivity. Qed.
 
 Example C33_nonvacuous_map :
